@@ -1852,8 +1852,7 @@ class TestHarness:
             env = self.merge_setup_options(options, test)
         else:
             env = os.environ.copy()
-        test_env = test.env.get_env(env)
-        env.update(test_env)
+        env = test.env.get_env(env)
         if (test.is_cross_built and test.needs_exe_wrapper and
                 test.exe_wrapper and test.exe_wrapper.found()):
             env['MESON_EXE_WRAPPER'] = join_args(test.exe_wrapper.get_command())
